@@ -1,5 +1,6 @@
 import UgoVerif.Proofs.Sym
 import UgoVerif.Gen.SymFacts
+import UgoVerif.Proofs.CompileGbEval
 /-
   C13 — a disabled builtin cannot be reached by any script.
 
@@ -362,5 +363,265 @@ example :
     let evs : List CEvent := [.api (.fork (some 0) false), .api (.defineLocal (some 1) [120]),
       .ident (some 1) [120], .ident (some 1) [105, 110, 116], .destructure, .ident (some 1) nLen]
     (crun builtinsMap builtinMakeArray s0 evs).out = [11, 47] := by decide
+
+
+/-! ## The compiled Bytecode, over the compiler model (`Model/Compile.lean`)
+
+  `Model/Compile.lean` (builder-c05) is a total model of compiler.go / compiler_nodes.go /
+  symbol_table.go with the optimizer off, byte-identical with the real compiler on every generated
+  program (stream `compile`).  For it the discipline assumed by `no_getbuiltin_partial` is PROVED:
+  the invariant "every GETBUILTIN operand emitted so far — in the current stream and in every compiled
+  function of the constant pool — is `:makeArray` or the index of a builtin name outside `D`; every
+  BUILTIN-scope symbol in any table of the chain carries such an index; `D` is contained in the root
+  table's disabled set" is carried through the eleven mutual compile functions, all block / function
+  scopes (`Fork`/`Parent`), loops and back-patches (`Proofs/CompileGb{Inv,Prims,Main,Eval}.lean`).
+  Not in that model: import expressions (module compilation: `fact_compileModule_copies`,
+  `module_table_keeps_disabled` and the `disable` oracle) and the optimizer
+  (`fact_evaluator_copies`, `evaluator_table_disabled` and the `disable` oracle). -/
+
+end UgoVerif.Props.C13
+
+namespace UgoVerif.Props.C13
+open UgoVerif UgoVerif.Go UgoVerif.Ast UgoVerif.Compile UgoVerif.Compile.GB UgoVerif.Eval
+
+/-- `i` is the operand of a GETBUILTIN instruction of the stream `a`: `p` is an instruction
+    boundary when `a` is decoded from offset 0 (`Walk`), the opcode byte there is GETBUILTIN and the
+    next byte (its one-byte operand) is `i` -/
+def GetBuiltinAt (a : Array UInt8) (i : Nat) : Prop :=
+  ∃ p op b, Walk a 0 p ∧ a[p]? = some op ∧ op.toNat = OpGetBuiltin ∧ a[p + 1]? = some b ∧ b.toNat = i
+
+/-- positive form: every GETBUILTIN operand of the stream is `:makeArray` or the index of a builtin
+    name that is NOT disabled -/
+def GetBuiltinsAllowed (bs : List (String × Nat)) (D : List String) (a : Array UInt8) : Prop :=
+  ∀ i, GetBuiltinAt a i → i = Gen.builtinMakeArray ∨ ∃ n, (n, i) ∈ bs ∧ n ∉ D
+
+/-- the property: no GETBUILTIN operand of the stream is the index of a name in `D`
+    (`:makeArray`, which no script can name, excepted) -/
+def NoDisabledGetBuiltin (bs : List (String × Nat)) (D : List String) (a : Array UInt8) : Prop :=
+  ∀ i, GetBuiltinAt a i → i = Gen.builtinMakeArray ∨ ∀ n, n ∈ D → (n, i) ∉ bs
+
+/-- … for the main function and every compiled function (nested functions, closures) of the Bytecode -/
+def BytecodeClean (bs : List (String × Nat)) (D : List String) (bc : Bytecode) : Prop :=
+  (NoDisabledGetBuiltin bs D bc.main.insts ∧ GetBuiltinsAllowed bs D bc.main.insts) ∧
+  ∀ f, Const.fn f ∈ bc.constants.toList → NoDisabledGetBuiltin bs D f.insts ∧ GetBuiltinsAllowed bs D f.insts
+
+theorem pair_unique : ∀ (bs : List (String × Nat)), (bs.map (·.2)).Nodup → ∀ a b i, (a, i) ∈ bs → (b, i) ∈ bs → a = b := by
+  intro bs
+  induction bs with
+  | nil => intro _ a b i h; cases h
+  | cons p r ih =>
+    intro hn a b i ha hb
+    simp only [List.map_cons, List.nodup_cons, List.mem_map, not_exists, not_and] at hn
+    simp only [List.mem_cons] at ha hb
+    rcases ha with ha | ha <;> rcases hb with hb | hb
+    · rw [← hb] at ha; exact (Prod.mk.inj ha).1
+    · subst ha; exact absurd rfl (hn.1 (b, i) hb)
+    · subst hb; exact absurd rfl (hn.1 (a, i) ha)
+    · exact ih hn.2 a b i ha hb
+
+theorem gbOK_allowed {bs : List (String × Nat)} {D : List String} {a : Array UInt8} (h : GbOK ⟨bs, D⟩ a) :
+    GetBuiltinsAllowed bs D a := by
+  rintro i ⟨p, op, b, hw, hop, h7, hb, rfl⟩
+  exact h p op b hw hop h7 hb
+
+theorem gbOK_clean {bs : List (String × Nat)} {D : List String} {a : Array UInt8} (hinj : (bs.map (·.2)).Nodup)
+    (h : GbOK ⟨bs, D⟩ a) : NoDisabledGetBuiltin bs D a := by
+  intro i hi
+  rcases gbOK_allowed h i hi with h | ⟨n, hn, hnd⟩
+  · exact .inl h
+  · refine .inr fun n' hn' hmem => ?_
+    have := pair_unique bs hinj n n' i hn hmem
+    subst this
+    exact hnd hn'
+
+theorem bcOK_clean {bs : List (String × Nat)} {D : List String} {bc : Bytecode} (hinj : (bs.map (·.2)).Nodup)
+    (h : BcOK ⟨bs, D⟩ bc) : BytecodeClean bs D bc :=
+  ⟨⟨gbOK_clean hinj h.1, gbOK_allowed h.1⟩, fun f hf => ⟨gbOK_clean hinj (h.2 f hf), gbOK_allowed (h.2 f hf)⟩⟩
+
+/-- **no_getbuiltin_compiled** (C13 at the Bytecode level, over the compiler model, with NO hypothesis
+    on the compiler).  For every builtin table with distinct indices, every disabled set `D` and EVERY
+    AST (any nesting of functions, closures, blocks, loops, try, destructuring, declarations): if
+    `compileFile` returns a Bytecode, then no GETBUILTIN instruction of its main function or of any
+    compiled function in its constant pool has as operand the index of a name in `D` (`:makeArray`
+    excepted), and every such operand is the index of a builtin that is not disabled.
+    Partial w.r.t. `C13_full` only in what the compiler model leaves out: import expressions (module
+    compilation) and the optimizer's evaluator. -/
+theorem no_getbuiltin_compiled (bs : List (String × Nat)) (hinj : (bs.map (·.2)).Nodup) (D : List String)
+    (file : List Stmt) (bc : Bytecode) (h : compileFile bs D file = .ok bc) : BytecodeClean bs D bc := by
+  have hg := goodP_compileProg (c := ⟨bs, D⟩) file (initState bs D) (inv_initState bs D)
+  unfold compileFile at h
+  unfold GB.Sat at hg
+  change (runCM (compileProg file) (initState bs D)).1 = _ at h
+  cases hr : runCM (compileProg file) (initState bs D) with
+  | mk r s' =>
+    rw [hr] at hg h
+    simp only at h
+    subst h
+    exact bcOK_clean hinj hg.2.2
+
+/-- the same from ANY compiler state satisfying the invariant `GB.Inv` — a re-used symbol table
+    with cached BUILTIN symbols and earlier definitions, nested scopes, a constant pool holding earlier
+    compiled functions, pending loops —, and the invariant holds again afterwards (the counterpart of
+    C05's `compile_no_panic_reused` / `compile_keeps_invariant`) -/
+theorem no_getbuiltin_reused (bs : List (String × Nat)) (hinj : (bs.map (·.2)).Nodup) (D : List String)
+    (s : CState) (hs : GB.Inv ⟨bs, D⟩ s) (file : List Stmt) (bc : Bytecode) (s' : CState)
+    (h : runCM (compileProg file) s = (.ok bc, s')) : BytecodeClean bs D bc ∧ GB.Inv ⟨bs, D⟩ s' := by
+  have hg := goodP_compileProg (c := ⟨bs, D⟩) file s hs
+  unfold GB.Sat at hg
+  rw [h] at hg
+  exact ⟨bcOK_clean hinj hg.2.2, hg.1⟩
+
+/-- a compilation that ends with an error (or a Go panic) leaves symbol tables that still satisfy
+    their part of the invariant: nothing a failed fragment cached can make a later one reach a
+    disabled builtin -/
+theorem failed_compile_keeps_tables (bs : List (String × Nat)) (D : List String)
+    (s : CState) (hs : GB.Inv ⟨bs, D⟩ s) (file : List Stmt) (e : CErr) (s' : CState)
+    (h : runCM (compileProg file) s = (.error e, s')) : GB.TabsInv ⟨bs, D⟩ s'.tables := by
+  have hg := goodP_compileProg (c := ⟨bs, D⟩) file s hs
+  unfold GB.Sat at hg
+  rw [h] at hg
+  exact hg
+
+/-- `resolve` of the compiler model never answers with a BUILTIN-scope symbol for a name in `D`
+    (the model-level counterpart of `resolve_disabled`, used by the invariant at `compileIdent`) -/
+theorem compile_resolve_disabled (bs : List (String × Nat)) (hinj : (bs.map (·.2)).Nodup) (D : List String)
+    (s : CState) (hs : GB.Inv ⟨bs, D⟩ s) (name : String) (y : Symbol) (s' : CState)
+    (h : runCM (Compile.resolve name) s = (.ok (some y), s')) (hb : y.scope = .builtin) :
+    ∃ i : Nat, y.index = i ∧ (∃ n, (n, i) ∈ bs ∧ n ∉ D) ∧ ∀ n, n ∈ D → (n, i) ∉ bs := by
+  have hg := goodP_resolve (c := ⟨bs, D⟩) name s hs
+  unfold GB.Sat at hg
+  rw [h] at hg
+  obtain ⟨i, hi, n, hn, hnd⟩ := hg.2.2 y rfl hb
+  refine ⟨i, hi, ⟨n, hn, hnd⟩, fun n' hn' hmem => ?_⟩
+  have := pair_unique bs hinj n n' i hn hmem
+  subst this
+  exact hnd hn'
+
+/-- the regenerated `BuiltinsMap` of builtins.go (`Gen/SymFacts.lean`) with its names as strings: the
+    table the compiler model is run with -/
+def builtinsStrMap : List (String × Nat) :=
+  Gen.SymFacts.builtinsMap.map fun p => (String.ofList (p.1.map fun b => Char.ofNat b.toNat), p.2)
+
+theorem builtinsStrMap_distinct : (builtinsStrMap.map (·.2)).Nodup := by
+  have h := fact_builtins_distinct.1
+  have e : builtinsStrMap.map (·.2) = Gen.SymFacts.builtinsMap.map (·.2) := by
+    simp [builtinsStrMap, List.map_map, Function.comp_def]
+  rw [e]; exact h
+
+/-- the instance for the real builtin table; `:makeArray` is the index the compiler model emits for
+    destructuring -/
+theorem no_getbuiltin_builtinsMap (D : List String) (file : List Stmt) (bc : Bytecode)
+    (h : compileFile builtinsStrMap D file = .ok bc) : BytecodeClean builtinsStrMap D bc :=
+  no_getbuiltin_compiled _ builtinsStrMap_distinct D file bc h
+
+example : Gen.builtinMakeArray = Gen.SymFacts.builtinMakeArray ∧ (":makeArray", Gen.builtinMakeArray) ∈ builtinsStrMap := by
+  decide +kernel
+
+def exBs : List (String × Nat) := [("len", 5), ("int", 11)]
+
+theorem getBuiltinAt_of_head {a : Array UInt8} {b : UInt8} (h : a.toList.take 2 = [7, b]) : GetBuiltinAt a b.toNat := by
+  have h0 : a[0]? = some 7 := by
+    have := congrArg (·[0]?) h
+    simpa [List.getElem?_take] using this
+  have h1 : a[0 + 1]? = some b := by
+    have := congrArg (·[1]?) h
+    simpa [List.getElem?_take] using this
+  exact ⟨0, 7, b, .refl 0, h0, rfl, h1, rfl⟩
+
+/-- test helper: the first two bytes of the main function and of every compiled function -/
+def firstTwo (r : Except CErr Bytecode) : List (List UInt8) :=
+  match r with
+  | .ok bc => bc.main.insts.toList.take 2 :: bc.constants.toList.filterMap fun k =>
+      match k with | .fn f => some (f.insts.toList.take 2) | _ => none
+  | .error _ => []
+
+/-- non-vacuity: with `len` disabled, a closure inside a block that calls `int(1)` compiles, and its
+    compiled function starts with GETBUILTIN 11 (`int`); a reference to `len` is a compile error;
+    without disabling, the same reference compiles to GETBUILTIN 5 (so the theorem does not hold
+    because builtins never compile) -/
+example : firstTwo (compileFile exBs ["len"]
+    [.block 1 [.expr 1 (.func 1 false [] 1 [.return_ 1 (some (.call 1 false (.ident 1 "int") [.int 1 1#64]))])]])
+    = [[1, 0], [7, 11]] := by decide +kernel
+example : ∃ p m, compileFile exBs ["len"] [.expr 1 (.call 1 false (.ident 1 "len") [])] = .error (.err p m) := ⟨_, _, rfl⟩
+example : ∃ bc, compileFile exBs [] [.expr 1 (.ident 1 "len")] = .ok bc ∧ GetBuiltinAt bc.main.insts 5 :=
+  ⟨_, rfl, getBuiltinAt_of_head (b := 5) rfl⟩
+example : (exBs.map (·.2)).Nodup := by decide
+example (bs : List (String × Nat)) (D : List String) : GB.Inv ⟨bs, D⟩ (initState bs D) := inv_initState bs D
+
+/-! ### Eval sessions -/
+
+/-- what an Eval session must satisfy for `D` to stay unreachable: its root table is acceptable
+    (`GB.TableOK`: cached BUILTIN symbols are indices of names outside `D`, `D ⊆ disabled`), holds no
+    pending global (`NoPending`, builder-c10), and the compiled functions in its constant pool are clean -/
+structure SessionOK (bs : List (String × Nat)) (D : List String) (s : Session) : Prop where
+  builtins : s.builtins = bs
+  table : GB.TableOK ⟨bs, D⟩ s.table
+  pending : NoPending s.table
+  consts : GB.ConstsOK ⟨bs, D⟩ s.constants
+
+/-- a new session whose options disable `D` is fine -/
+theorem session_new_ok (bs : List (String × Nat)) (D : List String) (heap : Array VM.Cell) (globals : VM.V) (args : List VM.V) :
+    SessionOK bs D (newSession bs D heap globals args) :=
+  ⟨rfl, ⟨fun _ h => by simp [newSession] at h, fun n hn => hn⟩, fun p h => by simp [newSession] at h,
+   fun f hf => by simp [newSession] at hf⟩
+
+/-- **no_getbuiltin_session** (one `Eval.Run`).  The compile of the fragment — which continues from
+    the session's root table and constants — yields, when it succeeds, a Bytecode without GETBUILTIN
+    of a name in `D` (main function, new and earlier function constants); and whatever the outcome
+    (compile error, run-time error, success) the session handed to the next fragment is fine again.
+    (The disabled set itself is unchanged by every compile: `session_table_monotone_full`, C10.)
+    Not covered: the two bytes `fixOpPop` rewrites in the main function afterwards (NOOP, RETURN 1). -/
+theorem no_getbuiltin_session (bs : List (String × Nat)) (hinj : (bs.map (·.2)).Nodup) (D : List String)
+    (F : FloatOps) (fuel : Nat) (s : Session) (file : List Stmt) (hs : SessionOK bs D s) :
+    SessionOK bs D (evalRun F fuel s file).session ∧
+    ∀ bc, (compileSession s.builtins s.table s.constants file).result = .ok bc → BytecodeClean bs D bc := by
+  have hc := compileSession_gb (c := ⟨bs, D⟩) s.table s.constants file hs.table hs.pending hs.consts
+  have hp := (UgoVerif.Proofs.EvalMono.compileSession_spec bs s.table s.constants file hs.pending).1.pend hs.pending
+  rw [hs.builtins]
+  refine ⟨?_, fun bc hbc => bcOK_clean hinj (hc.2 bc hbc)⟩
+  have key : (evalRun F fuel s file).session.table = (compileSession s.builtins s.table s.constants file).table ∧
+      (evalRun F fuel s file).session.builtins = s.builtins ∧
+      ((evalRun F fuel s file).session.constants = s.constants ∨
+        ∃ bc, (compileSession s.builtins s.table s.constants file).result = .ok bc ∧
+          (evalRun F fuel s file).session.constants = bc.constants) := by
+    unfold evalRun
+    simp only
+    split
+    · exact ⟨rfl, rfl, .inl rfl⟩
+    · rename_i bc hbc
+      split
+      · exact ⟨rfl, rfl, .inr ⟨bc, hbc, rfl⟩⟩
+      · exact ⟨rfl, rfl, .inr ⟨bc, hbc, rfl⟩⟩
+      · split
+        · exact ⟨rfl, rfl, .inr ⟨bc, hbc, rfl⟩⟩
+        · exact ⟨rfl, rfl, .inr ⟨bc, hbc, rfl⟩⟩
+        · exact ⟨rfl, rfl, .inr ⟨bc, hbc, rfl⟩⟩
+  rw [hs.builtins] at key
+  obtain ⟨k1, k2, k3⟩ := key
+  refine ⟨k2, by rw [k1]; exact hc.1, by rw [k1]; exact hp, ?_⟩
+  rcases k3 with k3 | ⟨bc, hbc, k3⟩
+  · rw [k3]; exact hs.consts
+  · rw [k3]; exact (hc.2 bc hbc).2
+
+/-- … hence along a whole session: after every fragment the session is fine, so the statement above
+    applies to every fragment (re-used tables, definitions and cached symbols of earlier fragments,
+    fragments that failed to compile in between) -/
+theorem no_getbuiltin_session_all (bs : List (String × Nat)) (hinj : (bs.map (·.2)).Nodup) (D : List String)
+    (F : FloatOps) (fuel : Nat) : ∀ (fs : List (List Stmt)) (s : Session), SessionOK bs D s →
+      ∀ o, o ∈ evalSession F fuel s fs → SessionOK bs D o.session
+  | [], _, _, o, ho => by simp [evalSession] at ho
+  | f :: fs, s, hs, o, ho => by
+    have h1 := (no_getbuiltin_session bs hinj D F fuel s f hs).1
+    unfold evalSession at ho
+    simp only at ho
+    split at ho
+    · simp only [List.mem_cons] at ho
+      rcases ho with ho | ho
+      · subst ho; exact h1
+      · exact no_getbuiltin_session_all bs hinj D F fuel fs _ h1 o ho
+    · simp only [List.mem_singleton] at ho
+      subst ho; exact h1
+
+example : SessionOK exBs ["len"] (newSession exBs ["len"] #[] .undefined []) := session_new_ok _ _ _ _ _
 
 end UgoVerif.Props.C13
